@@ -41,7 +41,9 @@ def case(part, item):
     k = cfg['kfac']
     try:
         cfgA = copy.deepcopy(cfg)
-        cfgA['kfac']['kl_clip'] = HUGE
+        # V comes from a run without any scaling code (kl_clip=None); the
+        # 1e30 variant is used where None itself is under test
+        cfgA['kfac']['kl_clip'] = HUGE if k['kl_clip'] is None else None
         recsA, badA = run_cfg(cfgA, sname)
         if badA:
             part.violation(f'sim:{badA[0]}', f'{name}: {badA[1]}', det)
@@ -62,7 +64,10 @@ def case(part, item):
         part.violation(f'sim:{badB[0]}', f'{name}: {badB[1]}', det)
         return
     part.count('executions', 2)
-    kl_f, lr_f = K.mk_hp(k['kl_clip']), K.mk_hp(k['lr'])
+    clock = K.ExtClock()
+    kl_f, lr_f = K.mk_hp(k['kl_clip'], clock), K.mk_hp(k['lr'], clock)
+    tol_rel = {'f32': 2e-5, 'f64': 2e-5, 'f16': 4e-3, 'bf16': 3e-2}[
+        cfg.get('dtype', 'f32')]
     active = False
     for rank, (recA, recB) in enumerate(zip(recsA, recsB)):
         step = 0
@@ -70,6 +75,7 @@ def case(part, item):
             if evA['op'][0] != 'train':
                 continue
             part.count('evaluations')
+            clock.i = step
             kl = kl_f(step) if callable(kl_f) else kl_f
             lr = lr_f(step) if callable(lr_f) else lr_f
             s = 0.0
@@ -99,7 +105,7 @@ def case(part, item):
                         'none-scaled', f'{name} rank{rank} step {step}: '
                         f'{pn} changed although kl_clip=None', det)
                     return
-                if not err <= 2e-5:
+                if not err <= tol_rel:
                     part.violation(
                         f"scale:{'zero' if s == 0.0 else 'clip'}",
                         f'{name} [{sname}] rank{rank} step {step}: {pn} is '
@@ -138,6 +144,32 @@ def configs(thorough, seed):
         if zero:
             cfg['zero_loss'] = True
         out.append((cfg, 'single'))
+    # hyper-parameters that track external state (e.g. the optimizer's lr
+    # changed by an lr scheduler between steps; the harness reads the
+    # properties after every step, as a logging loop would)
+    for model, (m, pre), kl, lr in itertools.product(
+            ['mlp2', 'nbfirst'], methods,
+            [1e-3, ['ext', [1e-3, 1e-5, 1e-2]]],
+            [['ext', [0.1, 1.0, 0.3]], ['ext', [1.0, 0.2, 0.2]]]):
+        k = dict(damping=0.05, factor_decay=0.5, kl_clip=kl, lr=lr,
+                 compute_method=m, compute_eigenvalue_outer_product=pre)
+        out.append(({'model': model, 'dtype': 'f32', 'batch': 2, 'world': 1,
+                     'seed': seed, 'kfac': k, 'sgd_lr': 0.0,
+                     'loss_mult': 5.0, 'history': [['train']] * 3},
+                    'single'))
+    # low-precision parameters with large inner products (the unscaled sum
+    # exceeds the float16 range while lr^2 * sum is ordinary)
+    for dt, (m, pre), mult in itertools.product(
+            ['f16', 'bf16'], methods, [45.0, 60.0]):
+        # identity factors (decay 1) kept in float32: V ~ D, so that
+        # sum <V,D> ~ 1e5 > 65504 while every single product stays small
+        k = dict(damping=0.05, factor_decay=1.0, kl_clip=1e-3, lr=0.01,
+                 factor_dtype='f32', compute_method=m,
+                 compute_eigenvalue_outer_product=pre)
+        out.append(({'model': 'wide', 'dtype': dt, 'batch': 2, 'world': 1,
+                     'seed': seed, 'kfac': k, 'sgd_lr': 0.0,
+                     'loss_mult': mult, 'history': [['train']] * 2},
+                    'single'))
     strategies = {2: ['COMM_OPT', 'MEM_OPT'],
                   4: ['COMM_OPT', 'MEM_OPT', 'HYBRID_OPT']}
     for world in (2, 4):
@@ -173,7 +205,8 @@ def main(run: core.Run):
         'step-dependent callable, None} x lr {0, 0.1, 1, callable} x '
         '{ordinary, all-zero gradients}, and simulated worlds 2/4 under all '
         'strategies; each is executed twice on identical states (model '
-        'updates disabled): with clipping disabled (kl=1e30) to obtain V and '
+        'updates disabled): with clipping disabled (kl_clip=None, resp. 1e30 '
+        'where None is under test) to obtain V and '
         'with the value under test; the result must be nu*V on every layer, '
         'step and rank with nu from the stated formula; non-trivial = '
         'configurations in which clipping was active (nu<1)')
